@@ -292,6 +292,23 @@ def gen_eq(tier):
                     for k, pre in enumerate([["b != 0", "b != -1"]] if P.signed else [["b != 0"]]):
                         obs.append(kern.Ob("%s/neg_inf-div/%s#%d" % (cfg, A.short, k), P.name, par2, "return unwrap(wrap<%s>(a) / wrap<%s>(b));" % (W, W), [ref], pre=pre, cfg=cfg,
                                            meta=dict(anchor="include/cnl/_impl/rounding/neg_inf_rounding_tag.h")))
+    # mixed operand types: which divide is chosen must not depend on the operand types' signedness or rank (seeded change
+    # M-C08-4 sent unsigned dividends to the truncating fallback): floor division in the usual-arithmetic-conversion type
+    ref = "auto q = a / b; auto r = a % b; return (r != 0 && ((r < 0) != (b < 0))) ? q - 1 : q;"
+    for cfg in ("clang",):
+        for (A, B) in ([(U8, I8), (U16, I32), (U32, I64), (I8, U8), (I32, U16), (I64, U32), (U8, I32), (I16, I64)] if tier == "quick" else [(a, b) for a in ALL64 for b in ALL64 if a is not b and uac(a, b).signed]):
+            P = uac(A, B)
+            WA, WB = ri(A, "neg_inf"), ri(B, "neg_inf")
+            for k, pre in enumerate([["b > 0"], ["b < -1"]]):       # the two sign pieces of the divisor: conjunctive pieces fold
+                refs2 = ["%s x = a; %s y = b; auto q = x / y; auto r = x %% y; return (r != 0 && ((r < 0) != (y < 0))) ? q - 1 : q;" % (P.name, P.name)]
+                if not A.signed:
+                    # the same floor for a dividend known to be non-negative, in the shape LLVM gives it
+                    refs2.append("%s x = a; %s y = b; if (y > 0 || x %% y == 0) return x / y; return -(x / -y) - 1;" % (P.name, P.name))
+                obs.append(kern.Ob("%s/neg_inf-div/mixed/%s,%s#%d" % (cfg, A.short, B.short, k), P.name, [(A.name, "a"), (B.name, "b")], "return unwrap(wrap<%s>(a) / wrap<%s>(b));" % (WA, WB),
+                                   refs2, pre=pre, cfg=cfg,
+                                   meta=dict(anchor="include/cnl/_impl/rounding/neg_inf_rounding_tag.h (dispatch for mixed operand types)")))
+                obs.append(kern.Ob("%s/neg_inf-div/mixed-builtin-rhs/%s,%s#%d" % (cfg, A.short, B.short, k), P.name, [(A.name, "a"), (B.name, "b")], "return unwrap(wrap<%s>(a) / b);" % WA,
+                                   refs2, pre=pre, cfg=cfg))
     return obs, facts
 
 
